@@ -11,7 +11,7 @@ from common import COQ, Check, REPO, parse_nat_list, sh, zlist  # noqa: E402
 from modgen import named_specs, random_model  # noqa: E402
 
 IMPORTS = "From Coq Require Import String List ZArith Bool.\nFrom QV Require Import Model.Module.\nImport ListNotations.\nOpen Scope string_scope.\n"
-OPC = {"forward": 0, "calibrate": 1, "freeze": 2, "to_cpu": 3, "to_device_obj": 3, "deepcopy": 4, "state_dict_reload": 5}
+OPC = {"forward": 0, "calibrate": 1, "freeze": 2, "to_cpu": 3, "to_device_obj": 3, "deepcopy": 4, "state_dict_reload": 5, "to_dtype": 6}
 BITS = {"qint2": 2, "qint4": 4, "qint8": 8, "qfloat8": 8, "qfloat8_e4m3fn": 8, "qfloat8_e5m2": 8}
 
 
@@ -44,7 +44,7 @@ def main(tier):
     ncase = 40 if tier == "quick" else 1500
     wq = ["qint8", "qint4", "qint2", "qfloat8", "qfloat8_e4m3fn", "qfloat8_e5m2", "qint4", "qint2"]
     aq = [None, "qint8", "qfloat8", None, "qint8"]
-    steps = ["forward", "calibrate", "freeze", "freeze", "to_cpu", "to_device_obj", "deepcopy", "state_dict_reload"]
+    steps = ["forward", "calibrate", "freeze", "freeze", "to_cpu", "to_device_obj", "deepcopy", "state_dict_reload", "to_dtype"]
     cases = []
     for i in range(ncase):
         tree, inp = random_model(rng)
@@ -87,6 +87,10 @@ def main(tier):
             op = ev["op"]
             ck.count("step", op)
             ctx = {"case": cfg, "step_index": k, "step": op}
+            if "exn" in ev and op == "to_dtype" and ev["exn"] == "ValueError" and "cannot be changed" in ev["msg"]:
+                ck.count("documented refusal (dtype change of a packed low-bit tensor)")
+                aborted = True
+                break
             if "exn" in ev:
                 what = f"{op} raised {ev['exn']}: {ev['msg'][:160]}"
                 if op == "deepcopy" and frozen_seen:
@@ -140,8 +144,9 @@ def main(tier):
                         ck.violation(f"frozen {c['weights']} weight of shape {fshape}: the payload exposes {qw['payload_bytes']} bytes but keeps a storage of {qw['payload_storage_bytes']} bytes alive (a view into a larger buffer: nothing is compacted)", sctx)
                     if qw["scale_numel"] != want_scales or (bits < 8 and qw["zp_numel"] != want_scales):
                         ck.violation(f"frozen {c['weights']} weight of shape {fshape} (group size {gs}) has {qw['scale_numel']} scales / {qw.get('zp_numel')} zero-points, expected {want_scales}", sctx)
-                    if qw["scale_dtype"] != "torch." + c["dtype"]:
-                        ck.violation(f"frozen weight scale has dtype {qw['scale_dtype']} in a {c['dtype']} model", sctx)
+                    cur_dtype = ev.get("dtype", c["dtype"])
+                    if qw["scale_dtype"] != "torch." + cur_dtype:
+                        ck.violation(f"frozen weight scale has dtype {qw['scale_dtype']} in a {cur_dtype} model", sctx)
                     ck.case(("storage", c["weights"], tuple(fshape), gs), nontrivial=True)
             elif op in ("to_cpu", "to_device_obj", "deepcopy", "state_dict_reload"):
                 if ev["before"] != ev["after"]:
